@@ -80,7 +80,7 @@ def hist_to_scenario(hist, sid, pool, nf, diff, reuse_sites=False):
             cur["steps"].append({"op": "call_unwind", "f": int(h["f"][1:]), "match": h["match"]})
         elif a == "End":
             cur = None
-    return {"id": sid, "pool": pool, "nf": nf, "diff": diff, "lives": lives}
+    return {"id": sid, "pool": pool, "nf": nf, "diff": diff, "lives": lives, "ctor": "default" if sid % 3 == 0 else "new"}
 
 
 def history_key(hist):
@@ -252,6 +252,19 @@ def lifecycle_check(prop, tier):
         hists += h3
         run.states += g3["distinct"]
         run.transitions += g3["generated"]
+    if prop in ("C02", "C03", "C12", "C17", "C05", "C04"):
+        # long lifetimes (up to 10 installations over 2 functions, mixed kinds) sampled by TLC's simulator
+        rl = tlc.check("MC_LifecycleApi", "MC_LifecycleApi_long", workers=1, timeout=3000, coverage=False,
+                       sim={"num": 80 if tier == "quick" else 2000, "depth": 600, "seed": vlib.seed()})
+        if rl["violation"]:
+            raise ToolError("generator spec violated: %s" % rl["violation"])
+        seenl = set()
+        for h in tlc.parse_replay_lines(rl["prints"]):
+            k = json.dumps(h, sort_keys=True)
+            if k not in seenl and sum(1 for x in h if x["act"] == "InstallOk") >= 4:
+                seenl.add(k)
+                hists.append(h)
+        run.extra["long_histories"] = len(seenl)
     nchained = 0
     if prop == "C05":
         # "repeated for many consecutive lifetimes": lifetimes are independent in the model, so the
